@@ -68,6 +68,22 @@ pub struct OpRec {
 pub struct System {
     pub init: Files,
     pub programs: Vec<Vec<Op>>,
+    /// when non-empty: thread i is a REAL `copia hub-sync` client process (free-running, inert under
+    /// the interposer) whose `copia serve` child is the scheduled process; `programs` is ignored
+    pub external: Vec<ExtClient>,
+}
+
+#[derive(Clone, Debug)]
+pub struct ExtClient {
+    pub tree: Files,
+    pub via_ssh: bool,
+}
+
+#[derive(Clone, Debug, Default)]
+pub struct ExtResult {
+    pub code: Option<i32>,
+    pub stdout: String,
+    pub stderr: String,
 }
 
 /// Optional knobs of one execution (defaults: shim root = hub root, cwd inherited).
@@ -91,7 +107,7 @@ enum Parked {
 struct Srv {
     child: std::process::Child,
     stdin: Option<std::process::ChildStdin>,
-    stdout: std::process::ChildStdout,
+    stdout: Option<std::process::ChildStdout>,
     ctl: BufReader<UnixStream>,
     parked: Parked,
     outbuf: Vec<u8>,
@@ -194,8 +210,9 @@ impl Srv {
     }
     fn drain_stdout(&mut self) {
         let mut buf = [0u8; 65536];
+        let Some(so) = self.stdout.as_mut() else { return };
         loop {
-            match self.stdout.read(&mut buf) {
+            match so.read(&mut buf) {
                 Ok(0) => break,
                 Ok(n) => self.outbuf.extend_from_slice(&buf[..n]),
                 Err(_) => break, // EAGAIN
@@ -281,6 +298,7 @@ pub struct Exec {
     pub kill_pre_tree: Option<Files>,
     /// every announced call after the handshake: (client, call, path1, path2)
     pub calls: Vec<(usize, String, String, String)>,
+    pub ext: Vec<ExtResult>,
 }
 
 pub struct RunOpts<'a> {
@@ -306,28 +324,50 @@ pub fn run_schedule(env: &WorkerEnv, sys: &System, opts: &RunOpts) -> Exec {
         }
         let _ = std::fs::write(&full, b);
     }
-    let n = sys.programs.len();
+    let ext = !sys.external.is_empty();
+    let n = if ext { sys.external.len() } else { sys.programs.len() };
     let mut children = Vec::new();
     for i in 0..n {
         let mut cmd = std::process::Command::new(cli_bin());
         if let Some(d) = &opts.knobs.cwd {
             cmd.current_dir(d);
         }
-        let c = cmd
-            .arg("serve")
-            .arg(&env.root)
-            .env("LD_PRELOAD", crate::e3::SHIM)
+        cmd.env("LD_PRELOAD", crate::e3::SHIM)
             .env("VSHIM_MODE", "sched")
             .env("VSHIM_SOCK", &env.sock_path)
             .env("VSHIM_ROOT", opts.knobs.shim_root.clone().unwrap_or_else(|| env.root.to_string_lossy().into_owned()))
             .env("VSHIM_CLIENT_ID", i.to_string())
             .env("TOKIO_WORKER_THREADS", "1")
-            .env("RUST_LOG", "off")
-            .stdin(std::process::Stdio::piped())
-            .stdout(std::process::Stdio::piped())
-            .stderr(std::process::Stdio::null())
-            .spawn()
-            .unwrap_or_else(|e| machinery_error(format!("spawn copia serve: {e}")));
+            .env("RUST_LOG", "off");
+        if ext {
+            // a real hub-sync client; the interposer is inert in it and active in the `serve` it spawns
+            let local = env.sc.path(&format!("local{i}"));
+            let _ = std::fs::remove_dir_all(&local);
+            let _ = std::fs::create_dir_all(&local);
+            for (p, b) in &sys.external[i].tree {
+                let full = local.join(p);
+                if let Some(d) = full.parent() {
+                    let _ = std::fs::create_dir_all(d);
+                }
+                let _ = std::fs::write(&full, b);
+            }
+            let target = if sys.external[i].via_ssh { format!("rh:{}", env.root.display()) } else { env.root.to_string_lossy().into_owned() };
+            cmd.arg("hub-sync").arg(&local).arg(target);
+            if sys.external[i].via_ssh {
+                cmd.env("PATH", format!("{}:{}", crate::e3::STANDIN_DIR, std::env::var("PATH").unwrap_or_default()))
+                    .env("VSTANDIN_SCHED", crate::e3::SHIM)
+                    .env("VSTANDIN_HOME", env.sc.path("rhome"))
+                    .env("VSTANDIN_BIN", cli_bin().parent().map(|p| p.to_path_buf()).unwrap_or_default());
+                let _ = std::fs::create_dir_all(env.sc.path("rhome"));
+            }
+            let (o, e) = (env.sc.path(&format!("client{i}.out")), env.sc.path(&format!("client{i}.err")));
+            cmd.stdin(std::process::Stdio::null())
+                .stdout(std::fs::File::create(o).unwrap_or_else(|e| machinery_error(format!("{e}"))))
+                .stderr(std::fs::File::create(e).unwrap_or_else(|e| machinery_error(format!("{e}"))));
+        } else {
+            cmd.arg("serve").arg(&env.root).stdin(std::process::Stdio::piped()).stdout(std::process::Stdio::piped()).stderr(std::process::Stdio::null());
+        }
+        let c = cmd.spawn().unwrap_or_else(|e| machinery_error(format!("spawn copia: {e}")));
         children.push(Some(c));
     }
     // accept the N control connections and identify them
@@ -348,8 +388,10 @@ pub fn run_schedule(env: &WorkerEnv, sys: &System, opts: &RunOpts) -> Exec {
     for i in 0..n {
         let mut c = children[i].take().unwrap_or_else(|| machinery_error("child"));
         let stdin = c.stdin.take();
-        let stdout = c.stdout.take().unwrap_or_else(|| machinery_error("stdout"));
-        set_nonblocking(stdout.as_raw_fd());
+        let stdout = c.stdout.take();
+        if let Some(so) = &stdout {
+            set_nonblocking(so.as_raw_fd());
+        }
         srv.push(Srv { child: c, stdin, stdout, ctl: conns[i].take().unwrap_or_else(|| machinery_error("conn")), parked: Parked::At("start".into(), String::new(), String::new()), outbuf: Vec::new(), parsed_upto: 0, next_op: 0, pending_pieces: Vec::new(), last_list: None, replies_seen: 0, awaiting: None, killed: false, trace: Vec::new() });
     }
     // start-up phase, one server at a time, not part of the explored schedule:
@@ -362,6 +404,9 @@ pub fn run_schedule(env: &WorkerEnv, sys: &System, opts: &RunOpts) -> Exec {
                 Parked::WantInput | Parked::Exited => break,
                 _ => s.go(),
             }
+        }
+        if ext {
+            continue; // the real client performs the handshake itself
         }
         let mut hello = crate::wire::MAGIC.to_vec();
         hello.extend(frame_of(&Request::Hello { version: 1 }));
@@ -386,7 +431,7 @@ pub fn run_schedule(env: &WorkerEnv, sys: &System, opts: &RunOpts) -> Exec {
         s.trace.clear();
     }
 
-    let mut ex = Exec { choices: Vec::new(), points: Vec::new(), ops: Vec::new(), final_tree: Files::new(), deadlock: false, exit_codes: vec![None; n], signals: vec![None; n], instant_violation: None, reply_errors: Vec::new(), steps: 0, labels: Vec::new(), killed: None, kill_pre_tree: None, calls: Vec::new() };
+    let mut ex = Exec { choices: Vec::new(), points: Vec::new(), ops: Vec::new(), final_tree: Files::new(), deadlock: false, exit_codes: vec![None; n], signals: vec![None; n], instant_violation: None, reply_errors: Vec::new(), steps: 0, labels: Vec::new(), killed: None, kill_pre_tree: None, calls: Vec::new(), ext: Vec::new() };
     let mut current: Option<usize> = None;
     let mut preemptions = 0u32;
     let mut lock_holder: Option<usize> = None;
@@ -454,6 +499,12 @@ pub fn run_schedule(env: &WorkerEnv, sys: &System, opts: &RunOpts) -> Exec {
         let s = &mut srv[t];
         let label;
         match s.parked.clone() {
+            Parked::WantInput if ext => {
+                // wait until the free-running client is blocked waiting for a reply (or has exited): then
+                // everything it will send before that reply is already in the pipe and the read is deterministic
+                quiesce(s.child.id());
+                label = format!("{t}: server reads its client's next bytes");
+            }
             Parked::WantInput => {
                 if let Some(piece) = (!s.pending_pieces.is_empty()).then(|| s.pending_pieces.remove(0)) {
                     if let Some(w) = s.stdin.as_mut() {
@@ -574,9 +625,58 @@ pub fn run_schedule(env: &WorkerEnv, sys: &System, opts: &RunOpts) -> Exec {
             ex.signals[i] = Some(libc::SIGKILL);
         }
     }
+    if ext {
+        for i in 0..n {
+            ex.ext.push(ExtResult { code: ex.exit_codes[i], stdout: std::fs::read_to_string(env.sc.path(&format!("client{i}.out"))).unwrap_or_default(), stderr: std::fs::read_to_string(env.sc.path(&format!("client{i}.err"))).unwrap_or_default() });
+        }
+    }
     ex.steps = step_no;
     ex.final_tree = snapshot_hub(&env.root);
     ex
+}
+
+/// Wait until process `pid`'s main thread is blocked in read(2) on an EMPTY pipe (it has consumed
+/// everything sent to it and waits for more), or in wait4(2), or is gone.
+fn quiesce(pid: u32) {
+    let start = std::time::Instant::now();
+    loop {
+        match std::fs::read_to_string(format!("/proc/{pid}/syscall")) {
+            Err(_) => return,
+            Ok(s) => {
+                let mut it = s.split_whitespace();
+                let nr = it.next().unwrap_or("");
+                if nr == "61" || nr == "247" {
+                    return;
+                }
+                if nr == "0" {
+                    let fd = it.next().and_then(|a| u64::from_str_radix(a.trim_start_matches("0x"), 16).ok()).unwrap_or(u64::MAX);
+                    let c = std::ffi::CString::new(format!("/proc/{pid}/fd/{fd}")).unwrap_or_default();
+                    let h = unsafe { libc::open(c.as_ptr(), libc::O_RDONLY | libc::O_NONBLOCK) };
+                    if h >= 0 {
+                        let mut n: libc::c_int = -1;
+                        let r = unsafe { libc::ioctl(h, libc::FIONREAD, &mut n) };
+                        unsafe { libc::close(h) };
+                        if r == 0 && n == 0 {
+                            // still the same blocked read a moment later?
+                            std::thread::sleep(std::time::Duration::from_micros(100));
+                            if std::fs::read_to_string(format!("/proc/{pid}/syscall")).map_or(true, |t| t == s) {
+                                return;
+                            }
+                        }
+                    }
+                }
+            }
+        }
+        if let Ok(st) = std::fs::read_to_string(format!("/proc/{pid}/stat")) {
+            if st.rsplit(") ").next().is_some_and(|r| r.starts_with('Z')) {
+                return;
+            }
+        }
+        if start.elapsed().as_secs() > 8 {
+            machinery_error(format!("client {pid} did not become quiescent"));
+        }
+        std::thread::sleep(std::time::Duration::from_micros(100));
+    }
 }
 
 fn unesc_path(s: &str) -> String {
